@@ -129,6 +129,7 @@ def judge_events(rep, events, sc, label, reported):
     rep.add("traces_validated_against_impl", len(chunks))
     if not bad:
         return []
+    all_bad = list(bad)
     # events with the signature of a known finding need no second reading
     for i in list(bad):
         e = events[i]
@@ -140,7 +141,7 @@ def judge_events(rep, events, sc, label, reported):
                 reported.add(key)
                 rep.violation(v, known_matcher)
     if not bad:
-        return []
+        return all_bad
     bp = os.path.join(sc, "%s_rejected.ndjson" % label)
     nv.write_ndjson(bp, [slim(events[i]) for i in bad])
     (idx2, _), = judge([bp], cfg="Trace_DateTime_lenient.cfg")
@@ -158,7 +159,7 @@ def judge_events(rep, events, sc, label, reported):
             continue
         reported.add(key)
         rep.violation(describe(e, e.get("src", label)), known_matcher)
-    return bad
+    return all_bad
 
 
 # ---------------------------------------------------------------------------------------------
@@ -355,36 +356,39 @@ def j_direction(rep, tier, seed, sc, reported):
     return events
 
 
-def self_tests(rep, g, jevents, sc):
-    """binding self-tests: a corrupted prediction and a corrupted recorded event must be noticed"""
+def self_tests(rep, g, jevents, sc, reported, bad_j):
+    """binding self-tests: a corrupted prediction and corrupted recorded events must be noticed (and nothing else);
+    bad_j: indices into jevents of the events that were not accepted in the real run"""
     cases, events, meta = g
     # G: shift one predicted instant by one nanosecond
     probe = nv.Report(PROP, "selftest", 0, "exploration")
-    victim = next(c for c in cases if c["kind"] == "arith" and c["cls"] == "exact" and c["add"]["k"] == "ok" and c["d"]["m"] != [0, 0, 0, 0])
+    victim = next(c for c in cases if c["kind"] == "arith" and c["cls"] == "exact" and c["add"]["k"] == "ok"
+                  and c["d"]["m"] != [0, 0, 0, 0] and ("G", c["id"], "add") not in reported)
     c2 = json.loads(json.dumps(victim))
     c2["add"]["t"][2] = (c2["add"]["t"][2] + 1) % NS
     compare_case(probe, c2, [e for e in events if e["id"] == victim["id"]], meta, set())
     rep.notes["selftest_G_corrupted_prediction_detected"] = len(probe.violations) > 0
     if not probe.violations:
         raise nv.ToolError("binding self-test failed: corrupted G prediction not detected")
-    # J: corrupt one recorded result / one recorded duration by a nanosecond -> exactly those lines are rejected
-    sample = [e for e in jevents[:4000]]
-    k1 = next(i for i, e in enumerate(sample) if e["op"] == "add" and e["cls"] == "ok" and i > len(sample) // 3)
-    k2 = next(i for i, e in enumerate(sample) if e["op"] == "add_diff" and e["cls"] == "ok" and i > k1
+    # J: corrupt one recorded result, one recorded difference and one converted instant -> exactly those lines are
+    # rejected in addition to the ones rejected anyway
+    sample = jevents[:4000]
+    base = {i for i in bad_j if i < len(sample)}
+    k1 = next(i for i, e in enumerate(sample) if e["op"] == "add" and e["cls"] == "ok" and i > len(sample) // 3 and i not in base)
+    k2 = next(i for i, e in enumerate(sample) if e["op"] == "add_diff" and e["cls"] == "ok" and i > k1 and i not in base
               and dur_as(e["x"]) != 0 and abs(dur_as(e["d"])) < 10 ** 9 * NS * NS)
-    k3 = next(i for i, e in enumerate(sample) if e["op"] == "tz" and e["cls"] == "ok" and i > k2)
+    k3 = next(i for i, e in enumerate(sample) if e["op"] == "tz" and e["cls"] == "ok" and i > k2 and i not in base)
     rows = json.loads(json.dumps(sample))
     rows[k1]["out"][2] = (rows[k1]["out"][2] + 1) % NS
     rows[k2]["x"]["m"][2] = (rows[k2]["x"]["m"][2] + 3) % NS
     rows[k3]["out"][1] = (rows[k3]["out"][1] + 3600) % SPD
     bp = os.path.join(sc, "selftest_corrupt.ndjson")
-    nv.write_ndjson(bp, rows)
+    nv.write_ndjson(bp, [slim(e) for e in rows])
     (idx, _), = judge([bp])
-    base = {i for i, e in enumerate(sample) if known_matcher(describe(e, "J"), {"signature": {"kind": "documented-12h-format-with-fraction-not-parsed"}})}
     got = set(idx) - base
     rep.notes["selftest_J_corrupted_events_rejected_at_lines"] = sorted(got)
     rep.notes["selftest_J_corrupted_lines"] = [k1, k2, k3]
-    if got != {k1, k2, k3}:
+    if got != {k1, k2, k3} or not base <= set(idx):
         raise nv.ToolError("binding self-test failed: corrupted events %s, rejected %s" % ([k1, k2, k3], sorted(got)))
 
 
@@ -407,9 +411,10 @@ def run(tier, seed):
         e["src"] = "G"
     for e in jevents:
         e["src"] = "J"
-    judge_events(rep, [e for e in g[1] if e["op"] != "setup-failed"] + jevents, sc, "GJ", reported)
-    if not rep.violations and not rep.cov.get("model_drift_events"):
-        self_tests(rep, g, jevents, sc)
+    gjudged = [e for e in g[1] if e["op"] != "setup-failed"]
+    bad = judge_events(rep, gjudged + jevents, sc, "GJ", reported)
+    if len(bad) < 2000:
+        self_tests(rep, g, jevents, sc, reported, {i - len(gjudged) for i in bad if i >= len(gjudged)})
     rep.set("rule", "G: every case of MC_DateTime's grid (instants at / next to the range ends, epoch, leap day, 2024 DST "
             "gaps and overlaps of Europe/Berlin and America/New_York, years 1, 0, -1, +-9999, ordinary ones; durations of "
             "both signs in ns us ms s min h day week month year with dyadic coefficients, ~1000 and ~19999..20000 years in "
